@@ -81,11 +81,59 @@ fn classify_panic(msg: &str) -> &'static str {
     else { "other" }
 }
 
+/// Output buffer and the case being executed, shared with the watchdog.
+struct State { buf: Vec<u8>, current: Option<(String, std::time::Instant)>, last: Option<std::time::Instant>, prop: String }
+static STATE: std::sync::Mutex<State> = std::sync::Mutex::new(State { buf: Vec::new(), current: None, last: None, prop: String::new() });
+
+fn flush_locked(st: &mut State) {
+    if !st.buf.is_empty() {
+        let so = std::io::stdout();
+        let mut lk = so.lock();
+        let _ = lk.write_all(&st.buf);
+        let _ = lk.flush();
+        st.buf.clear();
+    }
+}
+
+/// run one case under the watchdog and append its output line (whole lines only are ever written)
+fn run_case(line: &str) {
+    { let mut st = STATE.lock().unwrap(); st.current = Some((line.to_string(), std::time::Instant::now())); }
+    let r = exec_line(line);
+    let mut st = STATE.lock().unwrap();
+    st.current = None;
+    st.last = Some(std::time::Instant::now());
+    st.buf.extend_from_slice(line.as_bytes());
+    st.buf.extend_from_slice(b"\t=>\t");
+    st.buf.extend_from_slice(r.as_bytes());
+    st.buf.push(b'\n');
+    if st.buf.len() > (1 << 16) { flush_locked(&mut st); }
+}
+
+/// A case of the real code that does not return is a finding, not a reason to hang the check:
+/// after the time limit the pending output and `<case> => hang` are written and the shard ends.
+fn start_watchdog() {
+    let limit = std::env::var("VERIF_CASE_TIMEOUT_S").ok().and_then(|s| s.parse::<u64>().ok()).unwrap_or(90);
+    std::thread::spawn(move || loop {
+        std::thread::sleep(std::time::Duration::from_millis(250));
+        let mut st = STATE.lock().unwrap();
+        let hung = match (&st.current, &st.last) {
+            (Some((l, t0)), _) if t0.elapsed().as_secs() >= limit => Some(l.clone()),
+            // between cases: the generator itself calls the library to build inputs
+            (None, Some(t)) if t.elapsed().as_secs() >= 3 * limit.max(1) && !st.prop.is_empty() => Some(format!("{}\tgenerator", st.prop)),
+            _ => None };
+        if let Some(l) = hung {
+            st.buf.extend_from_slice(l.as_bytes());
+            st.buf.extend_from_slice(b"\t=>\thang\n");
+            flush_locked(&mut st);
+            std::process::exit(0);
+        }
+    });
+}
+
 fn main() {
     panic::set_hook(Box::new(|_| {}));
     let args: Vec<String> = std::env::args().collect();
-    let stdout = std::io::stdout();
-    let mut out = std::io::BufWriter::with_capacity(1 << 20, stdout.lock());
+    start_watchdog();
     match args.get(1).map(|s| s.as_str()) {
         Some("run") => {
             let prop = args[2].as_str();
@@ -94,10 +142,8 @@ fn main() {
             let shard: usize = args.get(5).map(|s| s.parse().unwrap()).unwrap_or(0);
             let nshards: usize = args.get(6).map(|s| s.parse().unwrap()).unwrap_or(1);
             let mut rng = rng::Rng::new(seed);
-            let mut emit = |line: String| {
-                let r = exec_line(&line);
-                writeln!(out, "{}\t=>\t{}", line, r).unwrap();
-            };
+            { let mut st = STATE.lock().unwrap(); st.prop = prop.to_string(); st.last = Some(std::time::Instant::now()); }
+            let mut emit = |line: String| { run_case(&line); };
             match prop {
                 "C01" => c01::generate(&mut rng, tier, shard, nshards, &mut emit),
                 "C02" => c02::generate(&mut rng, tier, shard, nshards, &mut emit),
@@ -122,18 +168,22 @@ fn main() {
                 _ => { eprintln!("unknown property {}", prop); std::process::exit(2); }
             }
         }
-        Some("config") => { writeln!(out, "{}", c20::cfg_string()).unwrap(); }
+        Some("config") => {
+            let mut st = STATE.lock().unwrap();
+            st.buf.extend_from_slice(c20::cfg_string().as_bytes());
+            st.buf.push(b'\n');
+        }
         Some("exec") => {
             let stdin = std::io::stdin();
             for line in stdin.lock().lines() {
                 let line = line.unwrap();
                 let line = match line.find("\t=>") { Some(i) => line[..i].to_string(), None => line };
                 if line.trim().is_empty() { continue; }
-                let r = exec_line(&line);
-                writeln!(out, "{}\t=>\t{}", line, r).unwrap();
+                run_case(&line);
             }
         }
         _ => { eprintln!("usage: harness run <prop> <tier> <seed> [shard nshards] | exec"); std::process::exit(2); }
     }
-    out.flush().unwrap();
+    let mut st = STATE.lock().unwrap();
+    flush_locked(&mut st);
 }
